@@ -639,6 +639,26 @@ def db_lookup(chk, prog):
                 ok, why = implies_equality(prog, cb, 0, stored, pres)
                 chk.ob("R8.db_lookup", base + m, f"{m}: an entry matches only if its stored {what} == the presented {what} (whole-string equality)", ok, why,
                        where=f"{cb.file}:{cb.line}")
+        # `find_map(|user| match &user.session { Some(s) if s.token == token => Some(..), _ => None })`: the closure answers Some only
+        # under whole-string equality of stored and presented value
+        fmaps = b.calls_to(r"Iterator>::find_map$|Iterator::find_map$")
+        for blk, t in fmaps:
+            d = describe(prog, b, t["args"][-1])
+            for c in [y[1] for y in _nodes(d) if y[0] == "closure" and y[1] in prog.bodies]:
+                cb = prog.bodies[c]
+                somes = [bi_ for bi_, blk_ in enumerate(cb.blocks) for st_ in blk_["stmts"]
+                         if st_.get("rv") and st_["rv"].get("k") == "agg" and st_["rv"].get("variant") == "Some" and "Option" in st_["rv"].get("adt", "")]
+                for sb_ in somes:
+                    n += 1
+                    eqs = [(a, r) for (a, op, r) in panics.cmp_facts(prog, cb, sb_) if op == "=="]
+                    ok = any((stored(cb, a) and pres(cb, r)) or (stored(cb, r) and pres(cb, a)) for a, r in eqs)
+                    chk.ob("R8.db_lookup", base + m, f"{m}: an entry matches only if its stored {what} == the presented {what} (whole-string equality)", ok,
+                           f"the entry is reported as found under {[(panics.short_desc(a), panics.short_desc(r)) for a, r in eqs]}", where=cb.where(sb_))
+                if not somes:
+                    n += 1
+                    chk.ob("R8.db_lookup", base + m, f"{m}: an entry matches only if its stored {what} == the presented {what} (whole-string equality)", False,
+                           "the find_map closure's Some results are not built in the closure", where=f"{cb.file}:{cb.line}")
+        finds = finds + fmaps
         # loop form: `for user in self.iter() { if <test> { return <found> } }`: every way out of the loop body other than
         # running out of entries is a match, and must be taken only under whole-string equality of stored and presented value
         if not finds:
